@@ -422,7 +422,7 @@ class SimulationBuilder:
         result = {
             entity_id: entity_description
             for (entity_id, entity_description) in input_dict.items()
-            if entity_id in tax_benefit_system.entities_plural()
+            if entity_id not in singular_keys
         }  # filter out the singular entities
 
         for singular in singular_keys:
